@@ -237,8 +237,8 @@ def check(rep: Report, tier: str, seed: int) -> None:
     T.compat.install()
     lean_stage(rep, PROP_MODULE, AUDIT, thorough=(tier == "thorough"))
     rng = seeded(seed * 7919 + 23)
-    l1, e1, m1 = seq_correspondence(rep, rng, 150 if tier == "quick" else 5000)
-    l2, e2, m2 = sched_correspondence(rep, rng, 150 if tier == "quick" else 4000)
+    l1, e1, m1 = seq_correspondence(rep, rng, 150 if tier == "quick" else 3000)
+    l2, e2, m2 = sched_correspondence(rep, rng, 150 if tier == "quick" else 1500)
     try:
         out = Driver().batch(l1 + l2)
     except LeanError as e:
